@@ -114,6 +114,21 @@ def base_variants(rng, ast, per_node_annot=2):
                 fl[i][0]['rings'].sort(key=lambda r: (r[2] or r[1] >= 10))
                 fl[i][0]['rings'].append((None, ms[-1], True))
             out.append(('a', position_class(i, n, flat[i][1], False) + '_last_of_many_markers', variant(hub)))
+    # (a) a three-digit index: one more digit written behind the %nn marker that opens a proper ring - %nnd is opened and
+    # never closed (and the ring's own closing %nn has nothing to close)
+    for i, (e, depth, unit, parent) in enumerate(flat):
+        opening = [k for k, (o_, m_, pct_) in enumerate(e['rings']) if pct_ and m_ >= 10
+                   and sum(1 for x in flat[:i] for r in x[0]['rings'] if r[1] == m_) == 0 and sum(1 for x in flat[i + 1:] for r in x[0]['rings'] if r[1] == m_) == 1
+                   and sum(1 for r in e['rings'] if r[1] == m_) == 1]
+        if opening and e['rings'][opening[-1]] is e['rings'][-1]:
+            k = opening[-1]
+            dgt = rng.randrange(10)
+
+            def longer(fl, i=i, k=k, dgt=dgt):
+                o_, m_, pct_ = fl[i][0]['rings'][k]
+                fl[i][0]['rings'][k] = (o_, m_ * 10 + dgt, True)
+            out.append(('a', position_class(i, n, depth, bool(unit)) + '_three_digit_index', variant(longer)))
+            break
     # (b) duplicate of an existing ring bond
     pairs = {}
     for i, (e, depth, unit, parent) in enumerate(flat):
@@ -224,7 +239,9 @@ def cases(seed, tier, shard, nshards):
             s = c.get('multi_string') or (c['base_string'] + '.' + c['frag_string'])
             head, _, rest = s.partition('}.')
             vs = []
-            spots = [m.end() - 1 for m in re.finditer(r'\[#[^\]]*\]', rest)]
+            # (annotation faults go into nodes that carry no annotation of their own: appended to an existing one the text
+            # would mean something else)
+            spots = [m.end() - 1 for m in re.finditer(r'\[#[^\];]*\]', rest)]
             for k, at in enumerate(spots):
                 for fault in 'def':
                     text = rng.choice(BAD['frag'][fault])
